@@ -1,6 +1,6 @@
 """E1: closed-world run explorer.  One job = one world explored over *all* its answer
 tapes with the run monitor attached."""
-from .tape import explore
+from .tape import PREDICTION_KINDS, explore
 
 TAPE_CAP = 400  # executions per world; a hit is reported as a cap, never hidden
 
@@ -38,7 +38,10 @@ def e1_job(world, props, extra_factory=None, tape_bound=None, tape_cap=TAPE_CAP)
 
     n = 0
     tape_bound = world.get("tape_bound", tape_bound)
-    for tape, (mon, out, w) in explore(run, max_runs=tape_cap, bound=tape_bound):
+    tape_cap = world.get("tape_cap", tape_cap)
+    kinds = tuple(world.get("tape_bounded_kinds", PREDICTION_KINDS))
+    for tape, (mon, out, w) in explore(run, max_runs=tape_cap, bound=tape_bound,
+                                       bounded_kinds=kinds):
         n += 1
         w["tape"] = tape.choices_made()
         w["tape_arities"] = tape.arities()
@@ -77,7 +80,7 @@ def _accumulate(agg, mon, out, world):
             rec = dict(v)
             rec["world"] = {k: world[k] for k in
                             ("workload", "cluster", "flags", "tape", "tape_arities",
-                             "fmt", "preload", "tag") if k in world}
+                             "fmt", "preload", "tag", "adv") if k in world}
             agg["violations"].append(rec)
     if agg["sample"] is None:
         agg["sample"] = {"tag": world.get("tag"), "tape": world.get("tape"),
